@@ -172,6 +172,38 @@ def run(ctx):
            bool(flt) and setok, filters=len(flt), membership_tests=len(used),
            failing_history=None if (flt and setok) else 'T registered at 0 and synced to the tip: tx1 (block b1) creates a T cell and an S cell, tx2 (block b2 > b1) spends the T cell; '
            'set_scripts([S@0], partial) and sync again: b1 matches S, is downloaded and filter_block re-inserts the T cell; b2 does not match S and is never downloaded again')
+    # r7 (F35): an input's previous transaction is looked up among the transactions of the block being indexed FIRST; the store is
+    # only the fallback (a record of a fetched transaction, tx index u32::MAX, would shadow the real index and the spent cell stays live)
+    nlook = 0
+    for c in [FB] + P.closures_of(FB):
+        for bid, t in P.call_sites(c, 'Storage::get_transaction'):
+            nlook += 1
+            ok = False
+            why = 'store lookup neither inside an `or_else` fallback of the block-local lookup nor behind `txs.get(..) == None`'
+            tag = re.search(r'\[closure@([^\]]+)\]', c.sig_args or '') if c is not FB else None
+            if tag:
+                # lazy fallback: the closure is the argument of Option::or_else on a value derived from HashMap::get
+                for par in [FB] + P.closures_of(FB):
+                    pdu = DefUse(par)
+                    for pb, pt in P.call_sites(par, lambda k, tt: k.endswith('Option::or_else') and ('[closure@%s]' % tag.group(1)) in tt.callee):
+                        if pdu.from_call(pt.args[0], lambda k: k.endswith('HashMap::get')):
+                            ok = True
+            if not ok:
+                gets = P.call_sites(c, lambda k, tt: k.endswith('HashMap::get'))
+                if gets:
+                    from engine.flow import GuardFlow
+                    gf = GuardFlow(c, P.cfg(c))
+                    for gb, gt in gets:
+                        try:
+                            good, _ = gf.check_sink(gb, 'None', bid, True)
+                        except Exception:
+                            good = False
+                        ok = ok or good
+            ctx.ob('C03.r7', c.name, 'a stored transaction record is consulted by filter_block only as the fallback of the lookup in the block being indexed (stored records may be placeholders of fetched transactions)', ok, at=t.span,
+                   problem=None if ok else why,
+                   failing_history=None if ok else 'fetch_transaction(T) stores T with tx index u32::MAX; the block containing T and a spender of T in the same block is indexed: '
+                   'the live-cell key is built with u32::MAX, the delete misses the real key, the spent cell stays live')
+    ctx.floor('C03.r7', 'previous-transaction lookups in filter_block', nlook, 1)
     census_fns.run(ctx, 'C03')
 
 
